@@ -112,6 +112,13 @@ def r1_weighted_tensor(ctx):
     src = canon_src(inner) if inner is not None else ""
     ok = "return $0.valued(f($0.filled(fill_value), *$args, **$kwargs))" in src
     ctx.check(ok, "C06.R1", fa, fa.node, "unary operators act on filled values and keep the weights", "the unary-operator factory no longer applies f to filled values and re-attaches the weights")
+    # (d') `valued` builds a new object from (new value, same weight): nothing else of the source - a memo, a cached dense view - is carried over
+    from ..astq import canon_lines as _cl
+    vf = ix.func(WT, "WeightedTensor.valued", "C06.R1")
+    vt = "; ".join(_cl(vf.node, True, True))
+    ctx.form("C06.R1", vf, vf.node, vt, {"return type($0)($1, $0.weight)", "return WeightedTensor($1, $0.weight)", "return $0.__class__($1, $0.weight)"}, ["$1", "$0.weight"],
+             "valued(v) = a fresh WeightedTensor(v, self.weight)", "valued() no longer builds a fresh tensor from (new value, same weight)",
+             forbidden=[r"copy\.copy\(", r"copy\(\$0\)", r"__setattr__", r"__dict__", r"replace\("], construct="valued")
     # (e) the module-level helpers the variable graphs are built with
     from ._shared import weighted_helper_forms
     weighted_helper_forms(ctx, "C06.R1")
